@@ -71,7 +71,7 @@ fn script_num(v: i64) -> Vec<u8> {
 }
 
 #[derive(Clone, Copy, PartialEq, Debug)]
-enum Kind { P2pkh, P2pk, Ms23, Cltv, Csv }
+enum Kind { P2pkh, P2pk, Ms23, Cltv, Csv, PkNot }
 
 #[derive(Clone)]
 struct Case {
@@ -135,7 +135,7 @@ fn base_case(rng: &mut Rng) -> Case {
         let op = OutPoint { hash: Hash256([0x20 + i as u8; 32]), index: rng.below(4) as u32 };
         let mut sequence = *rng.pick(&seq_pool);
         let kind = if !genesis && rng.chance(1, 4) { if rng.chance(1, 2) { Kind::Cltv } else { Kind::Csv } }
-                   else { *rng.pick(&[Kind::P2pkh, Kind::P2pkh, Kind::P2pk, Kind::Ms23]) };
+                   else { *rng.pick(&[Kind::P2pkh, Kind::P2pkh, Kind::P2pk, Kind::Ms23, Kind::PkNot]) };
         // with FORKID required an input now and then carries a (correctly made) legacy-type signature: it must be refused
         let ty = if (forkid && !rng.chance(1, 12)) || rng.chance(1, 3) { *rng.pick(&FORKID_TYPES) } else { *rng.pick(&LEGACY_TYPES) };
         let compressed = rng.chance(3, 4);
@@ -148,6 +148,11 @@ fn base_case(rng: &mut Rng) -> Case {
                 if compressed && pk[0] == 2 && rng.chance(1, 6) { pk[0] = 5; }
                 if !compressed && rng.chance(1, 12) { pk[0] = 6 + (pk[64] & 1); }
                 (p2pk(&pk), vec![k0]) }
+            // `<pk> OP_CHECKSIG OP_NOT`: a lock that TOLERATES a signature check answering false — spendable with a well-formed
+            // signature that does not verify (made with another key), so the difference between `check_sig` answering false and
+            // failing (a required FORKID bit missing, a malformed signature) decides the verdict
+            Kind::PkNot => { let mut l = p2pk(&pk_bytes(&keys[k0], true)); l.push(0x91);
+                (l, vec![if rng.chance(4, 5) { (k0 + 1 + rng.below(keys.len() as u64 - 1) as usize) % keys.len() } else { k0 }]) }
             Kind::Ms23 => { let ks = vec![k0, (k0 + 1) % keys.len(), (k0 + 2) % keys.len()];
                 (ms23(&ks.iter().map(|k| pk_bytes(&keys[*k], true)).collect::<Vec<_>>()), ks) }
             Kind::Cltv => { let lt = lock_time as i64;
@@ -181,7 +186,7 @@ fn base_case(rng: &mut Rng) -> Case {
         let lock = utxos[i].1.lock_script.0.clone(); let sat = utxos[i].1.satoshis;
         let its = match kinds[i] {
             Kind::P2pkh => vec![sign(&tx, i, &lock, sat, *ty, &keys[ks[0]], rng), pk_bytes(&keys[ks[0]], *compressed)],
-            Kind::P2pk | Kind::Cltv | Kind::Csv => vec![sign(&tx, i, &lock, sat, *ty, &keys[ks[0]], rng)],
+            Kind::P2pk | Kind::Cltv | Kind::Csv | Kind::PkNot => vec![sign(&tx, i, &lock, sat, *ty, &keys[ks[0]], rng)],
             Kind::Ms23 => { let (a, b) = *rng.pick(&[(0usize, 1usize), (0, 2), (1, 2)]);
                 vec![vec![], sign(&tx, i, &lock, sat, *ty, &keys[ks[a]], rng), sign(&tx, i, &lock, sat, *ty, &keys[ks[b]], rng)] }
         };
